@@ -60,7 +60,7 @@ BMATS = {"ba": "[true false; false false]", "bb": "[true true; false true]", "bc
          "bd": "[false false; true false]"}
 # scalar variables whose values make floating-point addition and multiplication visibly NON-associative: a chain of
 # equal-precedence operators over them has a different value under another grouping even when every operator is `+`
-SENS = {"sa": "0.1", "sb": "0.2", "sc": "0.3", "sd": "1e16", "se": "-1e16", "sf": "1", "sg": "0.7", "sh": "1e-16", "si": "3", "sj": "1e308"}
+SENS = {"sa": "0.1", "sb": "0.2", "sc": "0.3", "sd": "1e16", "se": "-1e16", "sf": "1", "sg": "0.7", "sh": "1e-16", "si": "3", "sj": "1e308", "sk": "2", "sl": "0.5", "sm": "1.5"}
 VARS = dict(MATS); VARS.update(BMATS); VARS.update(SENS)
 
 
@@ -339,7 +339,8 @@ def generate(tier, rng):
     #     comparison is that the unparenthesised text and every parenthesised reading of it agree bit for bit)
     for _ in range(1500 if thorough else 160):
         n = rng.randint(2, 6)
-        level = rng.choice([["add"], ["add"], ["add", "subtract"], ["multiply"], ["multiply", "divide"], ["subtract"], ["divide"]])
+        level = rng.choice([["add"], ["add"], ["add", "subtract"], ["multiply"], ["multiply", "divide"], ["subtract"], ["divide"],
+                            ["power"], ["power"], ["modulus"], ["multiply", "modulus"]])
         f = []
         for i in range(n + 1):
             f.append(("a", ["neg"] if rng.random() < 0.1 else [], ("var", rng.choice(sorted(SENS))), False))
